@@ -24,7 +24,28 @@ func kConcurrent(c J) interface{} {
 				return nil, J{"create": errKind(err)}
 			}
 		}
+		// operations applied before anything is read (removals leave spare capacity in the lists)
+		for _, o := range arr(c, "pre") {
+			op := o.(map[string]interface{})
+			switch str(op, "op") {
+			case "remove":
+				_, _ = cfg.Remove(str(op, "name"), numInt(op["idx"], -1), buildOpts(op["opts"])...)
+			case "set":
+				_ = cfg.SetString(str(op, "name"), numInt(op["idx"], -1), str(op, "val"), buildOpts(op["opts"])...)
+			}
+		}
 		return cfg, nil
+	}
+	// using the config as a merge source for a pre-filled destination, under a policy
+	mergeInto := func(src *ucfg.Config, spec map[string]interface{}) string {
+		dst, err := ucfg.NewFrom(buildValue(spec["from"]), buildOpts(spec["copts"])...)
+		if err != nil {
+			return "dst: " + err.Error()
+		}
+		if err := dst.Merge(src, buildOpts(spec["opts"])...); err != nil {
+			return mustJSON(errKind(err))
+		}
+		return mustJSON(fpValues(ucfg.VerifFingerprint(dst)))
 	}
 	// the solo results come from a twin: the shared config has never been read when the goroutines start
 	twin, bad := mk()
@@ -40,6 +61,11 @@ func kConcurrent(c J) interface{} {
 	solo := make([]string, len(reads))
 	for i, rd := range reads {
 		solo[i] = mustJSON(doRead(twin, rd.(map[string]interface{}), ropts))
+	}
+	dsts := arr(c, "dsts")
+	soloM := make([]string, len(dsts))
+	for i, d := range dsts {
+		soloM[i] = mergeInto(twin, d.(map[string]interface{}))
 	}
 	before := mustJSON(fpJSON(ucfg.VerifFingerprint(cfg)))
 	G := numInt(c["goroutines"], 4)
@@ -77,6 +103,18 @@ func kConcurrent(c J) interface{} {
 						mu.Unlock()
 					}
 				}
+				for k := range dsts {
+					i := (k + g) % len(dsts)
+					got := mergeInto(cfg, dsts[i].(map[string]interface{}))
+					if got != soloM[i] {
+						mu.Lock()
+						mismatches++
+						if first == "" {
+							first = "merge into " + mustJSON(dsts[i]) + ": alone " + soloM[i] + ", concurrently " + got
+						}
+						mu.Unlock()
+					}
+				}
 				if g == 0 {
 					// a merge source is only read
 					dst := ucfg.New()
@@ -97,4 +135,30 @@ func kConcurrent(c J) interface{} {
 		res["first"] = first
 	}
 	return res
+}
+
+// fpValues: the content of a fingerprint without identities (kinds, values, expressions, structure)
+func fpValues(n *ucfg.VerifNode) interface{} {
+	if n == nil {
+		return nil
+	}
+	out := J{"k": n.Kind}
+	if n.Value != "" {
+		out["v"] = n.Value
+	}
+	if n.Dict != nil {
+		d := J{}
+		for k, c := range n.Dict {
+			d[k] = fpValues(c)
+		}
+		out["d"] = d
+	}
+	if n.Arr != nil {
+		a := make([]interface{}, len(n.Arr))
+		for i, c := range n.Arr {
+			a[i] = fpValues(c)
+		}
+		out["a"] = a
+	}
+	return out
 }
